@@ -64,6 +64,17 @@ def step : List String → String
         let r := recvStub { compression := false, maxSize := max } z accepted stream
         -- the transcription of today's add_payload, run by the PyIR interpreter on the same header and body
         -- (PyroProps/C06Ast.lean proves it equals the model; a difference shows as " IR!" and is a disagreement)
+        let cfgH : Pyro.PyIR.Cfg := { useWaitall := false, peercert := false, blocking := true,
+                                      isSub := fun a b => decide (a = b), maxSize := max }
+        -- same for ReceivingMessage.__init__ on the 40 header bytes (suffix " IH!" on a difference)
+        let ihTag : String :=
+          if stream.length < 40 || stream.take 6 != headerPrefix then "" else
+          let ir := Pyro.C06AstRun.toHeader (Pyro.C06AstRun.runInit cfgH Pyro.Gen.C06.initSrc (stream.take 40))
+          let md := parseHeader { compression := false, maxSize := max } (stream.take 40)
+          match ir, md with
+          | some (.ok a), .ok b => if a == b then "" else " IH!"
+          | some (.error a), .error b => if a == b then "" else " IH!"
+          | _, _ => " IH!"
         let irTag : String :=
           if stream.length < 40 then "" else
           match parseHeader { compression := false, maxSize := max } (stream.take 40) with
@@ -77,7 +88,7 @@ def step : List String → String
                                              isSub := fun a b => decide (a = b), unzip := z.decompress }
               let ir := Pyro.C06AstRun.toDecoded hdr (Pyro.C06AstRun.runAddPayload cfgIR Pyro.Gen.C06.addPayloadSrc hdr body)
               if Pyro.C06AstRun.sameOutcome ir (addPayload z hdr body) then "" else " IR!"
-        (fun (t : String) => t ++ irTag) <|
+        (fun (t : String) => t ++ irTag ++ ihTag) <|
         match r.out with
         | .ok d =>
           s!"ok {d.type} {d.serId} {d.flags} {d.seq} {bytesToHex d.data} {bytesToHex d.corr} {d.anns.length} " ++
